@@ -7,6 +7,7 @@ From Cedar Require Export ConformRun.
 From Cedar Require Export TExprRun.
 From Cedar Require Export TCRun.
 From Cedar Require Export ParseRun.
+From Cedar Require Export Fmt.
 
 Definition dispatchers : list (string -> list sexp -> option sexp) :=
   [ run_core
@@ -14,6 +15,7 @@ Definition dispatchers : list (string -> list sexp -> option sexp) :=
   ; run_texpr
   ; run_tc
   ; run_c05
+  ; run_fmt
   ].
 
 Fixpoint dispatch (ds : list (string -> list sexp -> option sexp)) (cmd : string) (args : list sexp) : sexp :=
